@@ -457,6 +457,11 @@ where
             CosmosMsg::Custom(_) => unreachable!(),
             #[cfg(feature = "stargate")]
             CosmosMsg::Ibc(ibc) => CosmosMsg::Ibc(ibc),
+            #[cfg(feature = "stargate")]
+            CosmosMsg::Gov(gov) => CosmosMsg::Gov(gov),
+            #[cfg(feature = "stargate")]
+            #[allow(deprecated)]
+            CosmosMsg::Stargate { type_url, value } => CosmosMsg::Stargate { type_url, value },
             #[cfg(feature = "cosmwasm_2_0")]
             CosmosMsg::Any(any) => CosmosMsg::Any(any),
             other => panic!("unknown message variant {:?}", other),
